@@ -57,6 +57,12 @@ CHECKS = {
    design_ref="DESIGN.md section 6 C08",
    note=COMMON_NOTE + "Hand-modelled: Model/Tree.v, Model/TreeHashRFC.v. Parent-hash validity: validated with the library's validator (not independent), no theorem.",
    technique="Coq proof over tree-operation model + in-Coq RFC tree hash recomputation + node-by-node correspondence"),
+ "C02": dict(
+   category="proof",
+   text="Coq theorems (Props/C02.v): the unmerged-leaf invariant (every unmerged leaf listed at a parent is a non-blank leaf below it) holds in the one-member tree and is preserved by every commit of the tree model (removes, updates, adds, trim, path update) for every tree and operation list; under it every HPKE recipient of a fresh path secret (model of encap / encrypt_copath_node_resolution) is a non-blank node of the new tree inside a copath resolution of the committer, never a leaf added by the same commit, and a removed (blanked) leaf receives nothing; admission model of check_metadata + epoch lookup: a party whose newest epoch is e accepts no commit, proposal or application message of a later epoch or of another group. Tie: the keys recorded by a recording crypto provider for every commit of generated histories equal encap_recipients evaluated in Coq on the new tree plus exactly the init keys of the added key packages; removed members and a member replaced by its own external commit are fed all later traffic: everything refused with the verdict the admission model predicts, epoch and secrets unchanged.",
+   design_ref="DESIGN.md section 6 C02",
+   note=COMMON_NOTE + "Hand-modelled: Model/Tree.v, Model/Kem.v, Model/Admission.v. Cryptographic secrecy (that a party without the key cannot decrypt) is not a theorem: the theorems are about who is encrypted to and what is admitted.",
+   technique="Coq proof (tree invariant + recipient theorem + admission) + recorded-HPKE-recipient correspondence"),
 }
 NOT_YET = {}
 props = [json.loads(l) for l in open(os.path.join(V, "properties.jsonl"))]
